@@ -43,6 +43,10 @@ type placed struct {
 	StartLine int    // line in File of the first line of the definition's Comment+Text block
 }
 
+// layoutEscapeOnly: when >= 0, the interpreted-literal layout writes escaped leading white space in front of the
+// marker of that definition's literal only (set and reset by the caller)
+var layoutEscapeOnly = -1
+
 // layout places the definitions into files. Returns files and, per definition, where it landed.
 func layout(defs []gen.Def, kind layoutKind, r *proto.Rng) (map[string]string, []placed) {
 	files := map[string]string{}
@@ -170,6 +174,13 @@ func layout(defs []gen.Def, kind layoutKind, r *proto.Rng) (map[string]string, [
 				// the marker may be preceded by white space written as escapes ("\n\t# @genqlient…"): the literal's VALUE
 				// starts with the marker after trimming, which is what the documentation asks for
 				pre := proto.Pick(r, []string{"", "", "\n", "\t", "\n  \t"})
+				if layoutEscapeOnly >= 0 {
+					// directed: exactly ONE literal (the one holding the fault) starts with escaped white space
+					pre = ""
+					if i == layoutEscapeOnly {
+						pre = "\n\t"
+					}
+				}
 				fmt.Fprintf(&sb, "var _ = %s\n\n", strconv.Quote(pre+"# @genqlient\n\n"+b))
 				where[i] = placed{"queries.go", line} // positions inside interpreted literals are not claimed by C18
 				line += 2
